@@ -384,6 +384,8 @@ func init() {
 		ruleLoopNameUnique(c, r)
 		ruleKeyFieldName(c, r)
 		ruleRelPathPositional(c, r)
+		ruleFieldMethodClash(c, r)
+		ruleTypeNameGuard(c, r)
 	})
 }
 
